@@ -634,6 +634,19 @@ impl<T> HttpConnection<T> {
         self.buffer[live..].to_vec()
     }
 
+    /// Verification hook: `(state, read_cursor)` without building the whole digest.
+    pub fn verif_cursor(&self) -> (u8, usize) {
+        (
+            match self.state {
+                ConnectionState::WaitingForRequestLine => 0,
+                ConnectionState::WaitingForHeaders => 1,
+                ConnectionState::WaitingForBody => 2,
+                ConnectionState::RequestReady => 3,
+            },
+            self.read_cursor,
+        )
+    }
+
     /// Verification hook: the receive buffer size of this build.
     pub fn verif_buffer_size() -> usize {
         BUFFER_SIZE
